@@ -11,6 +11,7 @@ CONSTANTS
   Classes <- AllClasses
   Defect_PruneAfterFailedIngest = FALSE
   Defect_PruneFlagSkipsLatestCheck = FALSE
+  Defect_LogIdFromTopicUnchecked = FALSE
 INVARIANTS
   Export
 CHECK_DEADLOCK FALSE
